@@ -43,6 +43,9 @@ def get_model(world, m):
         model, old = world.objs[mid], True
     else:
         model, old = build_model(world, m["type"], m["spec"]), False
+        if m.get("born"):
+            model = clone(model, m["born"])
+            world.probes["model.lives_as_a_" + m["born"]] += 1
         if mid is not None:
             world.objs[mid] = model
     if m.get("via"):
